@@ -177,6 +177,15 @@ SameChunks(list, data, cl) ==
        /\ x.off + x.len <= Len(data)
        /\ SubSeq(data, x.off + 1, x.off + x.len) = cl[j].data
 
+\* rd2: the written datagram read back under the hint of the reader that accepted the value, when
+\* that is not the true token mode (0.6, no hint).  It must be the same value again, except for the
+\* one value the format cannot tell apart without hint (Wire!DocumentedAmbiguity).
+SameHintFails(v, blk) ==
+  IF "out" \notin DOMAIN blk.rd2 THEN {}
+  ELSE PropRead(blk.rd2)
+       \cup (IF v = 6 /\ W6!DocumentedAmbiguity(blk.p) THEN {}
+             ELSE Cond("reread-under-same-hint-differs", blk.rd2.out.r = "ok" /\ blk.rd2.out.p = blk.p))
+
 \* hascl: the chunk area of p was built by the library's write_chunk from the chunk list cl
 \* strict: also demand the absence of warnings (C05); C06 only asks that the value survives
 PropRT(v, blk, hascl, cl, strict) ==
@@ -198,6 +207,7 @@ PropRT(v, blk, hascl, cl, strict) ==
                PropRead(ro)
                \cup Cond("written-datagram-too-long", Len(blk.wr.bytes) <= MAX_PACKETSIZE)
                \cup Cond("reread-rejects-written-packet", ro.out.r # "err")
+               \cup SameHintFails(v, blk)
                \cup (IF ro.out.r # "ok" THEN {}
                      ELSE Cond("roundtrip-value-differs", ro.out.p = blk.p)
                           \cup Cond("warning-on-written-packet", strict => SeqToSet(ro.out.w) \subseteq AllowedW(v, blk.p))
@@ -223,6 +233,9 @@ DetailRT(v, blk, hascl, cl) ==
            THEN Cond("written-bytes-differ", blk.wr.bytes = exp.bytes)
                 \cup Cond("reread-input-differs", blk.rd.bytes = blk.wr.bytes /\ blk.rd.hint = TrueHint(v, blk.p))
                 \cup DetailRead(v, blk.rd)
+                \cup (IF "out" \in DOMAIN blk.rd2
+                      THEN Cond("reread-input-differs", blk.rd2.bytes = blk.wr.bytes) \cup DetailRead(v, blk.rd2)
+                      ELSE {})
            ELSE {})
      \cup (IF hascl THEN Cond("chunk-area-differs", blk.p.data = Area(v, cl)) ELSE {})
 
